@@ -17,6 +17,10 @@ type Cfg struct {
 	ExtraLen      int    // v2 rows: bytes of extra data (beyond the 2-byte length)
 	ServerID      uint32
 	CreateTS      uint32
+	// PadBits: how the unused high bits of the last bitmap byte are filled in rows events:
+	// 0 zeros; 1 ones in per-row NULL bitmaps (what mysqld's pack_row leaves behind);
+	// 2 ones in NULL bitmaps and in presence bitmaps (bitmap_set_all)
+	PadBits int `json:",omitempty"`
 }
 
 // UnitKind enumerates top-level binlog units.
@@ -204,6 +208,11 @@ func (h *History) queryBody(q *Query) []byte {
 
 // RowImage encodes one image of a row.
 func RowImage(tbl *Table, present []bool, vals []Value) []byte {
+	return RowImagePad(tbl, present, vals, false)
+}
+
+// RowImagePad is RowImage with a choice of NULL-bitmap padding.
+func RowImagePad(tbl *Table, present []bool, vals []Value, padOnes bool) []byte {
 	null := make([]bool, len(tbl.Cols))
 	cells := make([][]byte, len(tbl.Cols))
 	for c := range tbl.Cols {
@@ -216,7 +225,7 @@ func RowImage(tbl *Table, present []bool, vals []Value) []byte {
 		}
 		cells[c] = EncodeCell(tbl.Cols[c], vals[c])
 	}
-	return refenc.Image(present, null, cells)
+	return refenc.ImagePad(present, null, cells, padOnes)
 }
 
 // RowsEventType returns the event type code for a rows event kind.
@@ -246,13 +255,14 @@ func (h *History) RowsBody(r *RowsEv, last bool) []byte {
 	var rows [][]byte
 	for _, row := range r.Rows {
 		var b []byte
+		np := h.Cfg.PadBits >= 1
 		switch r.Kind {
 		case 0:
-			b = RowImage(t, r.Present1, row.After)
+			b = RowImagePad(t, r.Present1, row.After, np)
 		case 1:
-			b = append(RowImage(t, r.Present1, row.Before), RowImage(t, r.Present2, row.After)...)
+			b = append(RowImagePad(t, r.Present1, row.Before, np), RowImagePad(t, r.Present2, row.After, np)...)
 		case 2:
-			b = RowImage(t, r.Present1, row.Before)
+			b = RowImagePad(t, r.Present1, row.Before, np)
 		}
 		rows = append(rows, b)
 	}
@@ -268,7 +278,7 @@ func (h *History) RowsBody(r *RowsEv, last bool) []byte {
 	for i := range extra {
 		extra[i] = byte(0xE0 + i)
 	}
-	return refenc.RowsBody(h.Cfg.TableIDBytes, t.ID, flags, h.Cfg.RowsV2, extra, len(t.Cols), r.Present1, p2, rows)
+	return refenc.RowsBodyPad(h.Cfg.TableIDBytes, t.ID, flags, h.Cfg.RowsV2, extra, len(t.Cols), r.Present1, p2, rows, h.Cfg.PadBits >= 2)
 }
 
 // Lay lays the history out into events with exact offsets.
